@@ -201,8 +201,11 @@ func c10R1(c *Ctx, rule string) {
 			case strings.HasSuffix(n, "UConn).SetClientRandom"):
 				setRandom = i
 			case n == "builtin.copy":
-				if strings.Contains(Expr(x.Call.Args[0]), "KeyShares") && strings.Contains(Expr(x.Call.Args[1]), "x25519KeyShare") {
-					ksCopy = i
+				if strings.Contains(Expr(x.Call.Args[0]), "KeyShares") {
+					srcF, _ := loadedField(x.Call.Args[1])
+					if strings.Contains(Expr(x.Call.Args[1]), "x25519KeyShare") || isField(srcF, "internal/client", "clientHelloFields", "x25519KeyShare") {
+						ksCopy = i
+					}
 				}
 			}
 		case *ssa.Store:
